@@ -34,3 +34,20 @@ From Xdis Require Import Model.ExcTable.
 Definition obs_exc (tab : list Z) : list Z :=
   let es := parse_exception_table tab in
   [0; zlen es] ++ flat_map (fun '(s, e, t, d, l) => [s; e; t; d; if l : bool then 1 else 0]) es.
+
+From Xdis Require Import Model.Freeze.
+Definition obs_bytes (l : list Z) : list Z := 0 :: zlen l :: l.
+Definition mk_pairs (l : list Z) : list (Z * Z) := pairs l.
+
+(* freeze(): encoded table, then findlinestarts(frozen) top-level (version not given) and
+   through the opcode module of version v *)
+Definition obs_freeze_lnotab (enc : Z -> list (Z * Z) -> list Z) (v : list Z) (first codelen : Z) (m : list (Z * Z)) : list Z :=
+  let tab := enc first m in
+  obs_bytes tab ++ obs_pairs (findlinestarts_lnotab None false first codelen tab)
+  ++ obs_pairs (findlinestarts_lnotab (Some v) false first codelen tab).
+Definition obs_freeze_310 (first codelen : Z) (m : list (Z * Z)) : list Z :=
+  let tab := encode_lineno_tab_310 first codelen m in
+  match co_lines_310 first tab with
+  | Err e => [1; err_code e]
+  | Ok ls => obs_bytes tab ++ obs_pairs (fls_colines ls None) ++ obs_pairs (fls_colines ls None)
+  end.
